@@ -624,7 +624,13 @@ func (e *Engine) doCall(s *state, fr *frame, v *ssa.Call, c *ssa.CallCommon) boo
 			return false
 		case "copy":
 			if len(d.args) == 2 {
-				e.havoc(s, d.args[0], mk("copyof", "", 0, nil, d.args[1]))
+				dst := d.args[0]
+				for dst != nil && (dst.Kind == "slice" || dst.Kind == "varargs") && len(dst.Args) > 0 && dst.Kind == "slice" {
+					dst = dst.Args[0]
+				}
+				if dst != nil && isLocalAddr(dst) {
+					e.havoc(s, dst, mk("copyof", "", 0, elemType(dst.Typ), d.args[1]))
+				}
 			}
 			fr.env[v] = mk("call", "builtin:copy", 0, v.Type(), mk("site", fr.ctx+"@"+e.posStr(v.Pos()), 0, nil), nil)
 			return false
@@ -640,6 +646,33 @@ func (e *Engine) doCall(s *state, fr *frame, v *ssa.Call, c *ssa.CallCommon) boo
 	ev := Event{Kind: "call", Callee: d.callee, Fn: d.sfn, Recv: d.recv, Args: d.args, Res: res, Pos: v.Pos(), Ctx: fr.ctx, Depth: fr.depth, InFn: fr.fn}
 	if d.closure != nil {
 		ev.Args = append([]*Term{d.closure}, ev.Args...)
+	}
+	var snap func(a *Term, depth int)
+	snap = func(a *Term, depth int) {
+		if a == nil || a.Kind != "alloc" || depth > 3 {
+			return
+		}
+		et := elemType(a.Typ)
+		if et == nil {
+			return
+		}
+		if _, isStruct := et.Underlying().(*types.Struct); !isStruct {
+			return
+		}
+		v := e.load(s, a, et)
+		if ev.Binds == nil {
+			ev.Binds = map[string]*Term{}
+		}
+		ev.Binds[a.key] = v
+		if v.Kind == "structval" {
+			for _, f := range v.Args {
+				snap(f.Args[0], depth+1)
+			}
+		}
+	}
+	snap(ev.Recv, 0)
+	for _, a := range ev.Args {
+		snap(a, 0)
 	}
 	for _, a := range ev.Args {
 		if a != nil && a.Kind == "closure" {
@@ -897,28 +930,39 @@ func (e *Engine) eval(s *state, fr *frame, v ssa.Value) *Term {
 		if base.Kind == "alloc" && idx.Kind == "const" {
 			return mk("cell", idx.Name, 0, x.Type(), base)
 		}
+		s.emit(Event{Kind: "index", Recv: base, Args: []*Term{idx}, Pos: x.Pos(), Ctx: fr.ctx, Depth: fr.depth, InFn: fr.fn})
 		return mk("indexaddr", "", 0, x.Type(), base, idx)
 	case *ssa.Index:
-		return mk("index", "", 0, x.Type(), e.val(s, fr, x.X), e.val(s, fr, x.Index))
+		ib, ii := e.val(s, fr, x.X), e.val(s, fr, x.Index)
+		s.emit(Event{Kind: "index", Recv: ib, Args: []*Term{ii}, Pos: x.Pos(), Ctx: fr.ctx, Depth: fr.depth, InFn: fr.fn})
+		return mk("index", "", 0, x.Type(), ib, ii)
 	case *ssa.Slice:
 		base := e.val(s, fr, x.X)
 		if base.Kind == "alloc" && x.Low == nil && x.High == nil {
 			if at, ok := x.X.Type().Underlying().(*types.Pointer); ok {
 				if arr, ok := at.Elem().Underlying().(*types.Array); ok && arr.Len() <= 32 {
 					var el []*Term
+					anyCell := arr.Len() == 0
 					for i := int64(0); i < arr.Len(); i++ {
 						k := mk("cell", fmt.Sprint(i), 0, nil, base).key
 						if cv, ok := s.mem[k]; ok {
 							el = append(el, cv)
+							anyCell = true
 						} else {
 							el = append(el, mk("zero", "", 0, nil))
 						}
 					}
-					return mk("varargs", "", 0, x.Type(), el...)
+					if anyCell {
+						return mk("varargs", "", 0, x.Type(), el...)
+					}
 				}
 			}
 		}
-		return mk("slice", "", 0, x.Type(), base, e.val(s, fr, x.Low), e.val(s, fr, x.High))
+		lo, hi := e.val(s, fr, x.Low), e.val(s, fr, x.High)
+		if lo != nil || hi != nil {
+			s.emit(Event{Kind: "slice", Recv: base, Args: []*Term{lo, hi}, Pos: x.Pos(), Ctx: fr.ctx, Depth: fr.depth, InFn: fr.fn})
+		}
+		return mk("slice", "", 0, x.Type(), base, lo, hi)
 	case *ssa.Lookup:
 		m, k := e.val(s, fr, x.X), e.val(s, fr, x.Index)
 		if isMapTerm(m) && !isLocalAddr(m) {
@@ -932,6 +976,7 @@ func (e *Engine) eval(s *state, fr *frame, v ssa.Value) *Term {
 			return mk("tuple", "", 0, nil, mk("lookup", "val", 0, vt, m, k), mk("lookup", "ok", 0, types.Typ[types.Bool], m, k))
 		}
 		if vt == nil { // string index
+			s.emit(Event{Kind: "index", Recv: m, Args: []*Term{k}, Pos: x.Pos(), Ctx: fr.ctx, Depth: fr.depth, InFn: fr.fn})
 			return mk("index", "", 0, x.Type(), m, k)
 		}
 		return mk("lookup", "val", 0, x.Type(), m, k)
@@ -957,7 +1002,9 @@ func (e *Engine) eval(s *state, fr *frame, v ssa.Value) *Term {
 		}
 		return mk("conv", typeStr(x.Type()), 0, x.Type(), a)
 	case *ssa.SliceToArrayPointer:
-		return mk("slice2arr", typeStr(x.Type()), 0, x.Type(), e.val(s, fr, x.X))
+		sb := e.val(s, fr, x.X)
+		s.emit(Event{Kind: "slice2arr", Recv: sb, Args: []*Term{mk("const", fmt.Sprint(x.Type().Underlying().(*types.Pointer).Elem().Underlying().(*types.Array).Len()), 0, types.Typ[types.Int])}, Pos: x.Pos(), Ctx: fr.ctx, Depth: fr.depth, InFn: fr.fn})
+		return mk("slice2arr", typeStr(x.Type()), 0, x.Type(), sb)
 	case *ssa.MakeClosure:
 		fn := x.Fn.(*ssa.Function)
 		var b []*Term
@@ -976,6 +1023,7 @@ func (e *Engine) eval(s *state, fr *frame, v ssa.Value) *Term {
 		if x.CommaOk {
 			return mk("tuple", "", 0, nil, mk("typeassert", typeStr(x.AssertedType), 0, x.AssertedType, a), mk("typeis", typeStr(x.AssertedType), 0, types.Typ[types.Bool], a))
 		}
+		s.emit(Event{Kind: "typeassert", Recv: a, Callee: typeStr(x.AssertedType), Pos: x.Pos(), Ctx: fr.ctx, Depth: fr.depth, InFn: fr.fn})
 		return mk("typeassert", typeStr(x.AssertedType), 0, x.AssertedType, a)
 	case *ssa.Range:
 		m := e.val(s, fr, x.X)
